@@ -710,6 +710,26 @@ func (s Emitter) WriteExpression(output io.Writer, expression cypher.Expression)
 		}
 
 	case *cypher.KindMatcher:
+		if typedExpression.IsExclusive && len(typedExpression.Kinds) > 1 {
+			// An exclusive matcher requires every kind to be present: reference:Kind1:Kind2. Rendering it as a
+			// disjunction would turn it into an any-of match.
+			if err := s.WriteExpression(output, typedExpression.Reference); err != nil {
+				return err
+			}
+
+			for _, matcher := range typedExpression.Kinds {
+				if _, err := io.WriteString(output, ":"); err != nil {
+					return err
+				}
+
+				if _, err := io.WriteString(output, matcher.String()); err != nil {
+					return err
+				}
+			}
+
+			return nil
+		}
+
 		if len(typedExpression.Kinds) > 1 {
 			if _, err := io.WriteString(output, "("); err != nil {
 				return err
